@@ -410,14 +410,77 @@ def op_fac_holder_raw(a):
     return v
 
 
+# ---- what a holder remembers about the PDU it held before (case key "hist" of fac_holder): ask, store another, ask ----
+def _holder_views():
+    """every way of asking a holder what it holds, as plain values: the three views, the lengths / octets, and each typed
+    accessor (class of what it returns and whether that is the stored object)"""
+    def acc(k):
+        def call(h):
+            r = getattr(h, k.accessor)()
+            return {"cls": type(r).__name__, "is_stored": r is h.pdu}
+        return call
+    return ([("pdu_type", lambda h: int(h.pdu_type)), ("is_file_directive", lambda h: bool(h.is_file_directive)),
+             ("directive_type", lambda h: _opt_int(h.pdu_directive_type)), ("packet_len", lambda h: int(h.packet_len)),
+             ("pack", lambda h: hx(h.pack()))] + [("to:" + k.name, acc(k)) for k in KINDS])
+
+
+def _store(h: PduHolder, obj, via: int):
+    if via == 2:
+        with warnings.catch_warnings():
+            warnings.simplefilter("ignore", DeprecationWarning)
+            h.base = obj
+    else:
+        h.pdu = obj
+
+
+def _decode_for_holder(kind, raw_hex):
+    return None if kind is None else KINDS[kind].cls.unpack(unhx(raw_hex))
+
+
+def _octets_of_kind(kind, raw_hex) -> bool:
+    """do the octets announce a PDU of this kind (type bit, directive octet)? - the reused-holder probe is only asked of
+    PDUs decoded by the decoder of their own kind (the statement's domain)"""
+    if kind is None:
+        return True
+    raw, k = unhx(raw_hex), KINDS[kind]
+    if len(raw) < 4 or (raw[0] >> 4) & 1 != (1 if k.code is None else 0):
+        return False
+    return k.code is None or (len(raw) > header_len(raw) and raw[header_len(raw)] == k.code)
+
+
+def _holder_after_history(a, obj) -> PduHolder:
+    """a REUSED holder: it held the PDUs of `hist.steps` one after the other (each: kind, raw, how it was stored, which of
+    the views / accessors were used while it was held), then `obj` was stored in it (`holder.pdu = obj`, or the deprecated
+    `holder.base = obj`). Every way of asking it then answers like a holder freshly built around `obj`."""
+    steps = a["hist"]["steps"]
+
+    def make():
+        return _make_holder(_decode_for_holder(steps[0]["kind"], steps[0]["raw"]), steps[0].get("via", 0))
+
+    def mutate(h):
+        for st in steps[1:]:
+            _store(h, _decode_for_holder(st["kind"], st["raw"]), st.get("via", 1))
+            core.read_views(h, _holder_views(), st.get("read"))
+        _store(h, obj, a.get("via", 1))
+    got = {}
+    err = core.read_mutate_read(make, _holder_views(), mutate, lambda: PduHolder(obj), "PduHolder", first=steps[0].get("read"),
+                                after=a["hist"].get("after"), out=got)
+    if err:
+        raise SelfCheckFailure(err)
+    return got["obj"]
+
+
 def op_fac_holder(a):
     if a["kind"] is None:
         obj = None
     else:
         obj = KINDS[a["kind"]].cls.unpack(unhx(a["raw"]))
         ISOLATION.check("C12:PduFactory", obj, _digest)
-    v = _holder_view(_make_holder(obj, a.get("via", 0)), obj)
-    if a.get("canonical", True):
+    hist = a.get("hist") and all(_octets_of_kind(st["kind"], st["raw"]) for st in a["hist"]["steps"] + [a])
+    v = _holder_view(_holder_after_history(a, obj) if hist else _make_holder(obj, a.get("via", 0)), obj)
+    # (the table is claimed for PDUs decoded by the decoder of their own kind; a case minimised into "the File Data
+    #  decoder on the octets of a directive" is outside the statement)
+    if a.get("canonical", True) and _octets_of_kind(a["kind"], a["raw"]):
         _check_holder_table(v, _kind_of(obj))
     return v
 
@@ -720,6 +783,47 @@ class C12(Prop):
                 yield from_raw_case(k.spec(args), b"", "valid", f"{k.name}:setters-then-decode", mut=m)
                 yield Case({"op": "fac_roundtrip", "kind": k.idx, **k.params(rng, a, j + 1), "suffix": "", "poison": 1}, "valid",
                            tag=f"{k.name}:failed-calls-then-roundtrip")
+
+        # --- the reused holder (key "hist"): it held a PDU of one kind and was asked about it (the views, the matching or
+        #     a non-matching accessor, everything, nothing), then a PDU of another kind was stored in it (holder.pdu = ...,
+        #     or the deprecated holder.base = ...): all 64 ordered pairs of kinds (the diagonal with two different PDUs of
+        #     the kind), both ways of storing, every way of having asked; chains of three with an empty holder in between.
+        #     All accessors and views answer like those of a fresh holder of the last PDU, and like the model's ---
+        def sample(k: Kind, j: int) -> str:
+            args = k.params(rng, c6f.rand_conf(rng), j)
+            if k.name == "file_data" and len(args["data"]) > 64:
+                args["data"] = args["data"][:32]
+            if k.name == "nak" and args.get("segs"):
+                args["segs"] = args["segs"][:2]
+            return hx(k.spec(args))
+        n_reads = 8
+        for rep in range(6 if thorough else 2):
+            pdus = {k.idx: [sample(k, 2 * rep), sample(k, 2 * rep + 1)] for k in KINDS}
+            for ka in KINDS:
+                for kb in KINDS:
+                    for via in (1, 2):
+                        j = (ka.idx * 8 + kb.idx) * 2 + via + rep * 3
+                        rd = [None, ["pdu_type"], ["is_file_directive"], ["directive_type"], ["to:" + ka.name], ["to:" + kb.name],
+                              ["packet_len", "pack"], []][j % n_reads]
+                        after = [n for n, _ in _holder_views()]
+                        rng.shuffle(after)
+                        yield Case({"op": "fac_holder", "kind": kb.idx, "raw": pdus[kb.idx][1], "via": via,
+                                    "hist": {"steps": [{"kind": ka.idx, "raw": pdus[ka.idx][0], "via": j % 3, "read": rd}],
+                                             "after": after}}, "valid", tag=f"{ka.name}->{kb.name}:reused-holder")
+            for j in range(24):
+                ks = [rng.choice(KINDS) for _ in range(3)]
+                steps = [{"kind": k.idx, "raw": pdus[k.idx][0], "via": rng.choice([0, 1, 2]) if i == 0 else rng.choice([1, 2]),
+                          "read": rng.choice([None, ["pdu_type"], ["directive_type"], ["to:" + k.name], []])}
+                         for i, k in enumerate(ks[:2])]
+                if j % 3 == 0:
+                    steps.insert(1, {"kind": None, "raw": "", "via": 1, "read": rng.choice([None, []])})
+                if j % 8 == 7:
+                    # the reused holder is emptied last
+                    yield Case({"op": "fac_holder", "kind": None, "raw": "", "via": rng.choice([1, 2]), "hist": {"steps": steps}},
+                               "valid", tag="reused-holder-emptied")
+                else:
+                    yield Case({"op": "fac_holder", "kind": ks[2].idx, "raw": pdus[ks[2].idx][1], "via": rng.choice([1, 2]),
+                                "hist": {"steps": steps}}, "valid", tag="reused-holder-chain")
 
 
 PROP = C12()
